@@ -8,7 +8,7 @@
    [reencode_orig] / [normalize_orig]. *)
 From Coq Require Import List Ascii String NArith Bool Permutation.
 From ZenoV Require Import Lib.Hex Url.Escape Url.EscapeProofs Url.Query Url.QueryProofs
-  Url.RefUrl Url.Resolve Url.ResolveProofs.
+  Url.RefUrl Url.Resolve Url.ResolveProofs Url.UrlText Url.UrlTextProofs.
 Import ListNotations.
 Open Scope char_scope.
 
@@ -88,6 +88,16 @@ Print Assumptions C09_trim_quotes_wrapped.
 Theorem C09_norm_shape : forall parent r c, normalize parent r = Ok c -> shape_ok c = true.
 Proof. exact norm_shape_lemma. Qed.
 Print Assumptions C09_norm_shape.
+
+(* the same at the level of TEXT, with the very predicate the monitor evaluates on the
+   implementation's answers: on the reference grammar the rendering of every accepted result
+   starts with http:// or https://, its host part (after the credentials, before the port) is
+   dotted and neither "localhost" nor "127.0.0.1", it has no '#', an absolute path and no dot
+   segment.  The result is again an admissible parent, so the statement covers whole chains. *)
+Theorem C09_norm_shape_text : forall parent r c, parent_ok parent -> in_grammar parent r = true ->
+  normalize parent r = Ok c -> shape_text (render_url c) = true /\ parent_ok (Some c).
+Proof. exact norm_shape_text_lemma. Qed.
+Print Assumptions C09_norm_shape_text.
 
 (* what NormalizeURL leaves in the object is a canonical state *)
 Theorem C09_norm_state_canonical : forall parent r w, norm_state parent r = Ok w -> is_state w.
